@@ -33,6 +33,14 @@ func scenarios() []*sess.Scenario {
 				w.Srv.Queue = append(w.Srv.Queue, &rpcsrv.Out{Body: update(903), Content: true, Label: "update903", Kind: -1},
 					&rpcsrv.Out{Body: srvAck(), Content: false, Label: "server-msgs_ack", Kind: -1})
 			}},
+		// content-related messages whose processing fails (result for an unknown request) are still received
+		// messages: they, and what follows them in a container, must be acknowledged
+		{Name: "A3-unprocessable-among-updates", Salt: 5, Opt: all, Handler: true, Callers: [][]sess.Call{{obj(1)}},
+			Setup: func(w *sess.World) {
+				w.Srv.Queue = append(w.Srv.Queue, &rpcsrv.Out{Body: update(904), Content: true, Label: "update904", Kind: -1},
+					&rpcsrv.Out{Body: rpcsrv.ResultBody(0x5f5e0fff00000000, 77, rpcsrv.KObj, false), Content: true, Label: "result-for-unknown-request", Kind: -1},
+					&rpcsrv.Out{Body: update(905), Content: true, Label: "update905", Kind: -1})
+			}},
 	}
 }
 
